@@ -89,7 +89,7 @@ def strategy():
         'endpoints': st.lists(st.sampled_from(ENDPOINTS), max_size=5),
         'static': st.booleans(),
         'subapp': st.sampled_from([None, 'plain', 'with-resources']),
-        'mws': st.lists(st.sampled_from(['cookie', 'cookie-named', 'gzip', 'stats', 'getparam', 'ctx', 'custom', 'set-provides', 'list-provides', 'bad-repr']),
+        'mws': st.lists(st.sampled_from(['cookie', 'cookie-named', 'cookie-sub', 'gzip', 'stats', 'getparam', 'ctx', 'custom', 'set-provides', 'list-provides', 'bad-repr']),
                         max_size=3, unique=True),
         'mount': st.sampled_from(['/meta', '/_meta/', '/', '/a/b/meta', '/m<zq9>']),
         'depth': st.sampled_from([0, 0, 1, 2]),
@@ -230,9 +230,13 @@ def build(case):
 
         def endpoint(self, next):
             return next(ep_set=2)
+    class SubCookie(SignedCookieMiddleware):
+        """an application's own flavour of the signed cookie: a subclass that defines nothing about its representation"""
+        extra_setting = 'visible-setting'
     mws = []
     for m in case['mws']:
         mws.append({'cookie': lambda: SignedCookieMiddleware(secret_key=KEY),
+                    'cookie-sub': lambda: SubCookie(arg_name='subsess', cookie_name='subsid', secret_key=KEY + '-3'),
                     'cookie-named': lambda: SignedCookieMiddleware(arg_name='sess', cookie_name='sid', secret_key=KEY + '-2'),
                     'gzip': lambda: GzipMiddleware(), 'stats': lambda: StatsMiddleware(), 'getparam': lambda: GetParamMiddleware(['q']),
                     'ctx': lambda: SimpleContextProcessor('extra'), 'custom': lambda: Custom(),
